@@ -67,6 +67,14 @@ Definition mon (m : mst) (o : op) (out : list obs) : mst * verdict :=
       (saw m c (m_unans m) ((c, p) :: m_notifs m),
        fresh m c ++
        (if N.eqb c c' && N.eqb k K_NOTIFY && N.eqb p' p then [] else [CL_SHAPE]))
+  | NotifyProbe p, [Written c k p'; RetCtr c'; Found q] =>
+      (saw m c (m_unans m) ((c, p) :: m_notifs m),
+       fresh m c ++
+       (if N.eqb c c' && N.eqb k K_NOTIFY && N.eqb p' p then [] else [CL_SHAPE]) ++
+       (if N.eqb q p then [] else [CL_WRONGDG]))
+  | NotifyProbe p, [Written c k p'; RetCtr c'; NotFound] =>
+      (* a notification must be retrievable from the moment it is handed to the connection *)
+      (saw m c (m_unans m) ((c, p) :: m_notifs m), fresh m c ++ [CL_WRONGDG])
   | Other k, [Written c k' p] =>
       (saw m c (m_unans m) (m_notifs m),
        fresh m c ++ (if N.eqb k k' && N.eqb p 0 then [] else [CL_SHAPE]))
@@ -92,7 +100,7 @@ Definition sinit : sst := {| looked := false; oos := false |}.
 Definition scope (s : sst) (o : op) : sst :=
   match o with
   | Lookup _ => {| looked := true; oos := oos s |}
-  | Notify _ => {| looked := looked s; oos := oos s || looked s |}
+  | Notify _ | NotifyProbe _ => {| looked := looked s; oos := oos s || looked s |}
   | _ => s
   end.
 
